@@ -76,6 +76,10 @@ class RefDEVS:
                 self._request(self.clock + d, action[3], action[2])
         elif kind in ("abs", "pre"):
             out = self._request(action[1], action[3], action[2])
+        elif kind == "repre":
+            # an executed pre-built event object scheduled again (its time is the
+            # current clock) and cancelled at once: accepted, then removed
+            out = "removed"
         elif kind == "bad":
             out = REFUSED
         elif kind == "cancel":
